@@ -469,6 +469,32 @@ fn conversions(rep: &mut Report, tier: Tier) {
     rep.absorb(t);
 }
 
+/// Objects with every pattern of duplicated keys: every value with at most N nodes over one
+/// leaf and the keys {a, b} (so up to N - 1 entries with every key assignment, nested objects
+/// and arrays), printed compactly and with spaces, then navigated.
+fn duplicate_key_family(rep: &mut Report, tier: Tier) {
+    use refmodel::value::Gen;
+    use refmodel::RV;
+    let leaves = [RV::num("0")];
+    let keys = ["a", "b"];
+    let n = tier.pick(6, 7);
+    let g = Gen::new(&leaves, &keys, n);
+    let vals = g.up_to(n);
+    let count = vals.len();
+    let t = explore::par_tally(vals.chunks(128).map(|c| c.to_vec()).collect(), |chunk, t| {
+        for v in chunk {
+            let compact = refmodel::print::compact(&v);
+            check_document(&compact, t);
+            let spaced = refmodel::print::print(&v, &refmodel::print::Opts::pretty());
+            check_document(&spaced, t);
+            t.nontrivial(&compact);
+            t.outcome(if v.has_duplicate_keys() { "document:duplicate keys" } else { "document:generated, no duplicates" });
+        }
+    });
+    rep.bounds["duplicate-key-family"] = json!({"values": count, "max_nodes": n, "keys": keys, "renderings": ["compact", "pretty"]});
+    rep.absorb(t);
+}
+
 pub fn run(rep: &mut Report, tier: Tier) {
     // all documents of the token trees
     let vis = |n: &Node, t: &mut Tally| {
@@ -527,6 +553,7 @@ pub fn run(rep: &mut Report, tier: Tier) {
             rep.absorb(t);
         }
     }
+    duplicate_key_family(rep, tier);
     conversions(rep, tier);
     rep.rule = "every accepted document of the token trees (all token sequences up to the bound: nested arrays and objects, empty containers in every position, duplicate and escaped keys, whitespace): a table index -> fragment address is built from traverse(); get_fragment, iter_mapped on every array and object, the eight mapped key lookups for every key and one absent key, volume and count are compared with it, and the span stored at every returned offset is cut out of the source and re-parsed; conversions: every nested-array / map shape up to a bound with a wrong-kind value planted at every position; non-trivial = distinct documents".into();
     rep.assumptions.push("relies on C05 (code map exact) for the meaning of spans; pointer identity is used to identify fragments".into());
